@@ -106,6 +106,8 @@ void h_tick(void) {
         /* table empty after this tick: */
         V_ASSERT(g_hello_calls == 0, "C12: no periodic Hello once the session table is empty");
     }
+    if (in.have_map && in.inactive_ts != 0 && !inactive_fired)
+        V_ASSERT(((mapping_state *)M->extra)->inactive_timeout_ts == in.inactive_ts, "C12,C14: a tick before the 30 s inactivity deadline leaves the deadline armed (so the session is dropped, and periodic Hellos stop, once it passes)");
     if (inactive_fired) {
         if (in.have_tab) V_ASSERT(!any_valid(T) && T->count == 0, "C12: 30 s without traffic drops every session");
         V_ASSERT(M->current_state == 0, "C12: 30 s without traffic returns the mapping engine to idle");
